@@ -12,18 +12,6 @@ Qed.
 Lemma bytes_eqb_refl : forall a, bytes_eqb a a = true.
 Proof. induction a; cbn; auto. rewrite N.eqb_refl. auto. Qed.
 
-(* ---- which command a line is ---- *)
-Inductive cmd := CEmpty | CTei | CQuit | CNew (args : list (list N)) | CPos (args : list (list N)) | CGo (args : list (list N)) | CStop | CReady | CUnknown.
-Definition classify (line : list N) : cmd :=
-  match fields line with
-  | [] => CEmpty
-  | w0 :: args =>
-    if bytes_eqb w0 s_tei then CTei else if bytes_eqb w0 s_quit then CQuit
-    else if bytes_eqb w0 s_teinewgame then CNew args else if bytes_eqb w0 s_position then CPos args
-    else if bytes_eqb w0 s_go then CGo args else if bytes_eqb w0 s_stop then CStop
-    else if bytes_eqb w0 s_isready then CReady else CUnknown
-  end.
-
 Section F.
 Variable basis : list N.
 Variable SS : Type.
@@ -391,17 +379,39 @@ Proof.
   - exfalso. eapply Hn. reflexivity.
 Qed.
 
+Theorem tei_fresh_searcher_full e line :
+  e_mm e = None ->
+  ((forall args, classify line <> CGo args) -> e_mm (sr_eng (step e line)) = None) /\
+  (forall g, sr_go (step e line) = Some g ->
+     g_fresh g = true /\ e_pos e = Some (g_pos g) /\
+     (wf_engine e -> e_mm (sr_eng (step e line)) = Some (e_size e, fst (search (mk_searcher (e_size e)) (g_limit g) (g_pos g))))).
+Proof.
+  intros Hm. split; [exact (step_keeps_no_searcher e line Hm)|]. intros g. exact (tei_fresh_searcher e line g Hm).
+Qed.
+
 (* ---- C13: Run never panics ---- *)
+Lemma parse_move_total w : parse_move w <> PtnMove.Panic.
+Proof.
+  unfold parse_move. intros H.
+  repeat match type of H with
+   | context [match ?x with _ => _ end] => destruct x eqn:?; try discriminate
+   end.
+Qed.
+Lemma new_total sz : (3 <= sz <= 8)%Z -> new_pos basis sz <> Move.Panic.
+Proof.
+  intros H. unfold new_pos. destruct ((sz <? 0)%Z || (8 <? sz)%Z) eqn:E.
+  - apply orb_true_iff in E as [E|E]; apply Z.ltb_lt in E; lia.
+  - destruct (sz <? 3)%Z eqn:E3; [apply Z.ltb_lt in E3; lia|discriminate].
+Qed.
+
 Section Total.
 (* the positions the parsers produce and Move preserves: on them neither Move nor the TPS reader panics *)
 Variable good : position -> Prop.
 Hypothesis good_new : forall sz p, new_pos basis sz = Move.Ok p -> good p.
-Hypothesis new_total : forall sz, (3 <= sz <= 8)%Z -> new_pos basis sz <> Move.Panic.
 Hypothesis tps_total : forall s, parse_tps basis s <> Move.Panic.
 Hypothesis good_tps : forall s p, parse_tps basis s = Move.Ok p -> good p.
 Hypothesis move_total : forall p m, good p -> tmove basis p m <> Move.Panic.
 Hypothesis good_move : forall p m q, good p -> tmove basis p m = Move.Ok q -> good q.
-Hypothesis parse_move_total : forall w, parse_move w <> PtnMove.Panic.
 
 Lemma apply_moves_total : forall ws p, good p -> apply_moves basis p ws <> Move.Panic.
 Proof.
